@@ -4,6 +4,7 @@ import (
 	"fmt"
 	"go/constant"
 	"go/types"
+	"os"
 	"sort"
 	"strings"
 
@@ -31,15 +32,20 @@ func (fr *Frame) call(instr ssa.Instruction, common *ssa.CallCommon, st *State, 
 		args = args[1:]
 	}
 	pre := st.clone()
+	// annotations are written in terms of the function under contract: its locals, its loops
+	env := fr
+	if fr.root != nil {
+		env = fr.root
+	}
 	for _, a := range anns {
 		if !a.After {
-			fr.applyCallAnn(a, recv, args, nil, pre, st, R)
+			env.applyCallAnn(a, recv, args, nil, pre, st, R)
 		}
 	}
 	rv := fr.call1(instr, common, st, R)
 	for _, a := range anns {
 		if a.After {
-			fr.applyCallAnn(a, recv, args, &rv, pre, st, R)
+			env.applyCallAnn(a, recv, args, &rv, pre, st, R)
 		}
 	}
 	return rv
@@ -64,41 +70,130 @@ func (fr *Frame) callNames(common *ssa.CallCommon) []string {
 	return names
 }
 
-// matchCallAnns returns the call-site annotations of the top-level contract that apply to this call.
-// Ordinals (#n) count the matching call sites in source order.
-func (fr *Frame) matchCallAnns(instr ssa.Instruction, common *ssa.CallCommon) []*CallAnn {
-	if !fr.top || fr.contract == nil || len(fr.contract.Calls) == 0 {
+// siteKey identifies a call site of the function under contract or of a contract-less function inlined into it.
+func siteKey(path string, instr ssa.Instruction) string {
+	return fmt.Sprintf("%s|%p", path, instr)
+}
+
+// inlinedWithoutContract: a call that the translation expands in place (a repository function with a body and no
+// contract of its own).
+func (fr *Frame) inlinedWithoutContract(common *ssa.CallCommon, stack []*ssa.Function) *ssa.Function {
+	c := fr.c
+	callee := common.StaticCallee()
+	if callee == nil || callee.Blocks == nil {
 		return nil
 	}
-	if fr.callOrdinals == nil {
-		fr.callOrdinals = map[*CallAnn]map[ssa.Instruction]int{}
-		for _, a := range fr.contract.Calls {
-			var sites []ssa.Instruction
-			for _, b := range fr.fn.Blocks {
-				for _, ins := range b.Instrs {
-					ci, ok := ins.(ssa.CallInstruction)
-					if !ok {
+	if fc := c.W.contracts[fnKey(callee)]; fc != nil && !fc.Flags["inline"] {
+		return nil
+	}
+	if !(c.W.isRepoPkg(pkgOf(callee)) || c.W.inlinePkg[pkgPath(callee)] || c.inlineExtra[pkgPath(callee)]) {
+		return nil
+	}
+	for _, f := range stack {
+		if f == callee {
+			return nil
+		}
+	}
+	if len(stack) > maxInlineDepth {
+		return nil
+	}
+	return callee
+}
+
+type callSite struct {
+	key   string
+	names []string
+}
+
+// expandedSites: the call sites of fn in source order, with the call sites of every contract-less repository function
+// it calls spliced in after the call (recursively) - the order in which the text would read had those functions been
+// written out in place.  A refactoring that moves statements into a helper keeps the order, and the annotations.
+func (fr *Frame) expandedSites(fn *ssa.Function, path string, stack []*ssa.Function) []callSite {
+	var instrs []ssa.Instruction
+	for _, b := range fn.Blocks {
+		for _, ins := range b.Instrs {
+			if _, ok := ins.(ssa.CallInstruction); ok {
+				instrs = append(instrs, ins)
+			}
+		}
+	}
+	sort.SliceStable(instrs, func(i, j int) bool { return instrs[i].Pos() < instrs[j].Pos() })
+	var out []callSite
+	for _, ins := range instrs {
+		common := ins.(ssa.CallInstruction).Common()
+		out = append(out, callSite{siteKey(path, ins), fr.callNames(common)})
+		if _, isGo := ins.(*ssa.Go); isGo {
+			continue
+		}
+		if callee := fr.inlinedWithoutContract(common, stack); callee != nil {
+			out = append(out, fr.expandedSites(callee, path+fmt.Sprintf("/%p", ins), append(append([]*ssa.Function{}, stack...), callee))...)
+		}
+	}
+	return out
+}
+
+// matchCallAnns returns the call-site annotations of the top-level contract that apply to this call.
+// Ordinals (#n) count the matching call sites in source order (see expandedSites).
+func (fr *Frame) matchCallAnns(instr ssa.Instruction, common *ssa.CallCommon) []*CallAnn {
+	top := fr
+	if fr.root != nil {
+		top = fr.root
+	}
+	if !top.top || top.contract == nil || len(top.contract.Calls) == 0 {
+		return nil
+	}
+	if top.callOrdinals == nil {
+		top.callOrdinals = map[*CallAnn]map[string]int{}
+		sites := top.expandedSites(top.fn, "", []*ssa.Function{top.fn})
+		for _, a := range top.contract.Calls {
+			m := map[string]int{}
+			n := 0
+			for _, s := range sites {
+				for _, nm := range s.names {
+					if nm == a.Callee {
+						n++
+						m[s.key] = n
+						break
+					}
+				}
+			}
+			top.callOrdinals[a] = m
+			if os.Getenv("GOVC_DEBUGORD") != "" {
+				// compare with the numbering over the function's own call sites only
+				oldm := map[string]int{}
+				n := 0
+				for _, s := range sites {
+					if strings.Contains(s.key, "/") {
 						continue
 					}
-					for _, n := range fr.callNames(ci.Common()) {
-						if n == a.Callee {
-							sites = append(sites, ins)
+					for _, nm := range s.names {
+						if nm == a.Callee {
+							n++
+							oldm[s.key] = n
 							break
 						}
 					}
 				}
+				sel := func(mm map[string]int) string {
+					var ks []string
+					for k, o := range mm {
+						if a.Ordinal == 0 || a.Ordinal == o {
+							ks = append(ks, k)
+						}
+					}
+					sort.Strings(ks)
+					return strings.Join(ks, ",")
+				}
+				if sel(m) != sel(oldm) {
+					fmt.Fprintf(os.Stderr, "ORDINAL-SHIFT %s: at call %s#%d binds to other sites when inlined helpers are counted\n", fnKey(top.fn), a.Callee, a.Ordinal)
+				}
 			}
-			sort.SliceStable(sites, func(i, j int) bool { return sites[i].Pos() < sites[j].Pos() })
-			m := map[ssa.Instruction]int{}
-			for i, ins := range sites {
-				m[ins] = i + 1
-			}
-			fr.callOrdinals[a] = m
 		}
 	}
 	var out []*CallAnn
-	for _, a := range fr.contract.Calls {
-		ord, hit := fr.callOrdinals[a][instr]
+	key := siteKey(fr.path, instr)
+	for _, a := range top.contract.Calls {
+		ord, hit := top.callOrdinals[a][key]
 		if !hit {
 			continue
 		}
@@ -392,6 +487,11 @@ func (fr *Frame) callStatic(instr ssa.Instruction, callee *ssa.Function, free []
 	if inlinable {
 		sub := &Frame{c: c, fn: callee, depth: fr.depth + 1, prefix: fr.prefix + callee.Name() + ".", free: free,
 			stack: append(append([]*ssa.Function{}, fr.stack...), fr.fn)}
+		sub.root = fr.root
+		if sub.root == nil {
+			sub.root = fr
+		}
+		sub.path = fr.path + fmt.Sprintf("/%p", instr)
 		savedPos := c.curPos
 		rv, out, Rret := c.execFunc(sub, args, st.clone(), R)
 		c.curPos = savedPos
@@ -956,13 +1056,13 @@ func (c *Ctx) splitGoal(env *Env, e Expr) []conj {
 // Locations (modifies clauses)
 
 type Loc struct {
-	Kind string   // "field", "elems", "map", "ghost", "fieldset"
-	Keys []Leaf   // component keys with element sort
-	Ref  string   // object / backing / map ref
-	Lo   string   // elems: absolute lower bound (inclusive) or ""
-	Hi   string   // elems: absolute upper bound (exclusive)
-	In   func(r string) string // fieldset: membership condition on the object reference
-	inner string               // whole: kind of the wrapped designator
+	Kind  string                // "field", "elems", "map", "ghost", "fieldset"
+	Keys  []Leaf                // component keys with element sort
+	Ref   string                // object / backing / map ref
+	Lo    string                // elems: absolute lower bound (inclusive) or ""
+	Hi    string                // elems: absolute upper bound (exclusive)
+	In    func(r string) string // fieldset: membership condition on the object reference
+	inner string                // whole: kind of the wrapped designator
 }
 
 // refIn: condition under which object reference r is covered by a field(-set) location.
